@@ -147,6 +147,13 @@ impl Parser<'_> {
         self.input.nth(n)
     }
 
+    /// Look ahead `n` tokens without spending fuel. For scans whose length grows
+    /// with the input (and is therefore bounded by it): fuel only has to catch
+    /// loops that make no progress.
+    pub fn lookahead(&self, n: usize) -> TokenKind {
+        self.input.nth(n)
+    }
+
     pub fn eof(&mut self) -> bool {
         self.input.eof()
     }
